@@ -110,6 +110,8 @@ class Ctx:
         # optional second encoding of the same path condition over mathematical integers (the
         # "mirror", see ints.SymInt.i): linear arithmetic that bit-blasting decides badly
         self.lia = bool(self.opts.get("lia")) and mode == "sym"
+        # "first": ask the mirror before the bit-vector encoding; "fallback": only when z3 answers unknown
+        self.lia_first = self.opts.get("lia") in (True, "first")
         if self.lia:
             self.lia_solver = z3.Solver()
             self.lia_solver.set("timeout", int(self.opts.get("lia_timeout_ms", 3000)))
@@ -204,7 +206,7 @@ class Ctx:
         return out
 
     def _ensure_model(self):
-        if not self.model_valid and self.lia:
+        if not self.model_valid and self.lia and self.lia_first:
             r, m = self._lia_try((), ())
             if r == z3.unsat:
                 raise PathAbort()
@@ -213,6 +215,14 @@ class Ctx:
                 self.model_valid = True
         if not self.model_valid:
             r = self._check()
+            if r == z3.unknown and self.lia and not self.lia_first:
+                r2, m2 = self._lia_try((), ())
+                if r2 == z3.unsat:
+                    raise PathAbort()
+                if r2 == z3.sat:
+                    self.model = m2
+                    self.model_valid = True
+                    return self.model
             if r == z3.sat:
                 self.model = self._fresh_model if self._fresh_model is not None else self.solver.model()
                 self.model_valid = True
@@ -231,7 +241,8 @@ class Ctx:
 
     def sat_with(self, *conds, mirrors=None):
         """Is pc & conds satisfiable?  Returns (result, model|None)."""
-        if self.lia and mirrors is not None and all(m is not None for m in mirrors):
+        have_mirror = self.lia and mirrors is not None and all(m is not None for m in mirrors)
+        if have_mirror and self.lia_first:
             r, m = self._lia_try(conds, mirrors)
             if r is not None:
                 return r, m
@@ -241,9 +252,14 @@ class Ctx:
                 self.solver.add(c)
             r = self._check()
             m = (self._fresh_model if self._fresh_model is not None else self.solver.model()) if r == z3.sat else None
-            return r, m
         finally:
             self.solver.pop()
+        if r == z3.unknown and have_mirror and not self.lia_first:
+            r2, m2 = self._lia_try(conds, mirrors)
+            if r2 is not None:
+                self.stats.unknown -= 1
+                return r2, m2
+        return r, m
 
     # ------------------------------------------------------------------ decisions
     def branch(self, cond, mirror=None) -> bool:
